@@ -23,6 +23,8 @@ type TimingCfg struct {
 	Upper       bool   // upper-bound clauses apply (long waits)
 	CancelAfter int    // cancel 20ms after the exit of this attempt (0: never)
 	Fb          bool   // the node has a (succeeding) fallback
+	Stop        bool   // batch: stop-on-error mode
+	Dur2        int    // batch: failing attempts of item 2 take this long (ms)
 	Dur         int    // every failing attempt takes this long (ms): the wait counts from its END
 }
 
@@ -31,11 +33,11 @@ func (c TimingCfg) toJSON() map[string]any {
 	for _, b := range c.Script {
 		sc = append(sc, b)
 	}
-	return map[string]any{"w": c.W, "N": c.N, "kind": c.Kind, "n": c.Items, "c": c.C, "script": sc, "upper": c.Upper, "cancelafter": c.CancelAfter, "dur": c.Dur, "fb": c.Fb}
+	return map[string]any{"w": c.W, "N": c.N, "kind": c.Kind, "n": c.Items, "c": c.C, "script": sc, "upper": c.Upper, "cancelafter": c.CancelAfter, "dur": c.Dur, "fb": c.Fb, "stop": c.Stop, "dur2": c.Dur2}
 }
 
 func parseTimingCfg(m map[string]any) TimingCfg {
-	c := TimingCfg{W: asInt(m["w"]), N: asInt(m["N"]), Kind: asStr(m["kind"]), Items: asInt(m["n"]), C: asInt(m["c"]), Upper: asBool(m["upper"]), CancelAfter: asInt(m["cancelafter"]), Dur: asInt(m["dur"]), Fb: asBool(m["fb"])}
+	c := TimingCfg{W: asInt(m["w"]), N: asInt(m["N"]), Kind: asStr(m["kind"]), Items: asInt(m["n"]), C: asInt(m["c"]), Upper: asBool(m["upper"]), CancelAfter: asInt(m["cancelafter"]), Dur: asInt(m["dur"]), Fb: asBool(m["fb"]), Stop: asBool(m["stop"]), Dur2: asInt(m["dur2"])}
 	for _, b := range asList(m["script"]) {
 		c.Script = append(c.Script, asBool(b))
 	}
@@ -91,6 +93,9 @@ func (t *timingRun) exec(p int) (any, error) {
 	if !ok && t.cfg.Dur > 0 {
 		time.Sleep(time.Duration(t.cfg.Dur) * time.Millisecond)
 	}
+	if !ok && p == 2 && t.cfg.Dur2 > 0 {
+		time.Sleep(time.Duration(t.cfg.Dur2) * time.Millisecond)
+	}
 	if t.cfg.CancelAfter == k {
 		time.AfterFunc(20*time.Millisecond, func() {
 			t.log(Event{"ev": "cancel", "t": t.us()})
@@ -133,7 +138,7 @@ func runTimingScenario(cfg TimingCfg) []Event {
 				return flyt.DefaultAction, nil
 			})
 	case "batch":
-		node = flyt.NewBatchNode().WithMaxRetries(cfg.N).WithWait(wait).WithBatchConcurrency(cfg.C).
+		node = flyt.NewBatchNode().WithMaxRetries(cfg.N).WithWait(wait).WithBatchConcurrency(cfg.C).WithBatchErrorHandling(!cfg.Stop).
 			WithPrepFunc(func(ctx context.Context, s *flyt.SharedStore) ([]flyt.Result, error) {
 				t.prep()
 				items := make([]flyt.Result, cfg.Items)
@@ -210,6 +215,11 @@ func init() {
 				}
 				cfgs = append(cfgs, c)
 			}
+		}
+		// stop-on-error batches: an item that exhausts its budget must not cut a sibling's retry wait short
+		for _, w := range []int{20, 40} {
+			cfgs = append(cfgs, TimingCfg{W: w, N: 2, Kind: "batch", Items: 2, C: 2, Script: []bool{false, false}, Stop: true, Dur2: w / 2})
+			cfgs = append(cfgs, TimingCfg{W: w, N: 3, Kind: "batch", Items: 3, C: 3, Script: []bool{false, false, false}, Stop: true, Dur2: w / 2})
 		}
 		// T2: a long wait makes an unwanted wait before the first / after the last attempt visible
 		for _, k := range kinds {
